@@ -288,96 +288,112 @@ OPEN = '/*<cqv %s>*/'
 CLOSE = '/*</cqv>*/'
 
 
-def annotate(src, spec, relpath, report):
-    m = mask(src)
-    edits = []  # (start, end, replacement)
+def annotate_function(src, m, fn, relpath, contract_only):
+    """edits + report entry for one @function; raises Drift."""
+    edits = []
 
     def ins(pos, text):
         edits.append((pos, pos, text))
+    name = fn['name']
+    npos, rp, lb, rb = find_function(m, name)
+    loops = find_loops(m, lb, rb)
+    frep = dict(function=name, loops=len(loops), contract_clauses=len(fn['contract']), transforms=[])
+    k = npos
+    while k > 0 and m[k - 1] not in ';}':
+        k -= 1
+    decl_start = skip_ws(m, k)
+    decl_start = src.rfind('\n', 0, decl_start) + 1
+    if fn['contract']:
+        ins(rp + 1, '\n' + '\n'.join(fn['contract']) + '\n')
+    if fn['twin']:
+        proto = src[decl_start:rp + 1]
+        proto = re.sub(r'\b%s\b' % re.escape(name), name + '__rec', proto, count=1)
+        proto = re.sub(r'\bstatic\b\s*', '', proto)
+        proto = re.sub(r'\binline\b\s*', '', proto)
+        ctext = '\n'.join(fn['contract'])
+        ins(decl_start, '/* T1 twin */ ' + proto + '\n' + ctext + ';\n')
+        cnt = 0
+        for mo in re.finditer(r'\b%s\s*\(' % re.escape(name), m[lb:rb]):
+            s_ = lb + mo.start()
+            edits.append((s_, s_ + len(name), name + '__rec'))
+            cnt += 1
+        if cnt == 0:
+            raise Drift('%s: @twin but no self call in %s' % (relpath, name))
+        frep['transforms'].append('T1: %d self-call(s) of %s redirected to contract twin %s__rec'
+                                  % (cnt, name, name))
+    if contract_only:
+        return edits, frep
+    if len(loops) != len(fn['loops']):
+        raise Drift('%s: function %s has %d loops, overlay expects %d'
+                    % (relpath, name, len(loops), len(fn['loops'])))
+    if fn['entry']:
+        ins(lb + 1, '\n' + '\n'.join(fn['entry']) + '\n')
+    for r in fn['replaces']:
+        p = nth_find(src, r['old'], r['occ'], lb, rb)
+        if p < 0:
+            raise Drift('%s: %s: replace text %r not found' % (relpath, name, r['old']))
+        edits.append((p, p + len(r['old']), r['new']))
+        frep['transforms'].append('T3: %r -> %r' % (r['old'], r['new']))
+    byord = {l['ordinal']: l for l in fn['loops']}
+    if sorted(byord) != list(range(1, len(loops) + 1)):
+        raise Drift('%s: %s: loop ordinals must be 1..%d' % (relpath, name, len(loops)))
+    for idx, lp in enumerate(loops, 1):
+        o = byord[idx]
+        if o['kind'] != lp['kind']:
+            raise Drift('%s: %s: loop %d is %s, overlay says %s'
+                        % (relpath, name, idx, lp['kind'], o['kind']))
+        if o['skip'] or not o['lines']:
+            continue
+        text = '\n' + '\n'.join(o['lines']) + '\n'
+        if lp['kind'] in ('for', 'while'):
+            ins(lp['hdr_end'], text)
+        else:
+            body = m[lp['body_start']:lp['body_end']]
+            if re.search(r'\bcontinue\b', body):
+                raise Drift('%s: %s: do-loop %d contains continue; T2 not applicable'
+                            % (relpath, name, idx))
+            edits.append((lp['kw'], lp['kw'] + 2, 'for (;;)' + text + '{'))
+            edits.append((lp['tail_kw'], lp['tail_kw'] + 5, 'if (!'))
+            edits.append((lp['tail_semi'], lp['tail_semi'] + 1, ') break; }'))
+            frep['transforms'].append('T2: do/while loop %d rewritten as for(;;){BODY if(!(c)) break;}' % idx)
+    for i_ in fn['inserts']:
+        p = nth_find(src, i_['anchor'], i_['occ'], lb, rb)
+        if p < 0:
+            raise Drift('%s: %s: anchor %r (occ %d) not found'
+                        % (relpath, name, i_['anchor'], i_['occ']))
+        if i_['where'] == 'after':
+            e = src.find('\n', p)
+            ins(e + 1, '\n'.join(i_['lines']) + '\n')
+        else:
+            b = src.rfind('\n', 0, p) + 1
+            ins(b, '\n'.join(i_['lines']) + '\n')
+    return edits, frep
 
+
+def annotate(src, spec, relpath, report):
+    m = mask(src)
+    edits = []  # (start, end, replacement)
     for top in spec['top']:
         p = nth_find(src, top['anchor'], top['occ'], 0, len(src))
         if p < 0:
             raise Drift('%s: top anchor %r not found' % (relpath, top['anchor']))
         e = src.find('\n', p)
-        ins(e + 1, '\n'.join(top['lines']) + '\n')
+        edits.append((e + 1, e + 1, '\n'.join(top['lines']) + '\n'))
 
     for fn in spec['functions']:
-        name = fn['name']
-        npos, rp, lb, rb = find_function(m, name)
-        loops = find_loops(m, lb, rb)
-        if len(loops) != len(fn['loops']):
-            raise Drift('%s: function %s has %d loops, overlay expects %d'
-                        % (relpath, name, len(loops), len(fn['loops'])))
-        frep = dict(function=name, loops=len(loops), contract_clauses=len(fn['contract']),
-                    transforms=[])
-        # declaration start (for twin): beginning of the line where the return type starts
-        # = first non-blank after previous '}' or ';' at depth 0
-        k = npos
-        while k > 0 and m[k - 1] not in ';}':
-            k -= 1
-        # skip preprocessor / comment lines (blank in mask)
-        decl_start = skip_ws(m, k)
-        decl_start = src.rfind('\n', 0, decl_start) + 1
-        if fn['contract']:
-            ins(rp + 1, '\n' + '\n'.join(fn['contract']) + '\n')
-        if fn['entry']:
-            ins(lb + 1, '\n' + '\n'.join(fn['entry']) + '\n')
-        if fn['twin']:
-            proto = src[decl_start:rp + 1]
-            proto = re.sub(r'\b%s\b' % re.escape(name), name + '__rec', proto, count=1)
-            proto = re.sub(r'\bstatic\b\s*', '', proto)
-            proto = re.sub(r'\binline\b\s*', '', proto)
-            ctext = '\n'.join(fn['contract'])
-            ins(decl_start, '/* T1 twin */ ' + proto + '\n' + ctext + ';\n')
-            cnt = 0
-            for mo in re.finditer(r'\b%s\s*\(' % re.escape(name), m[lb:rb]):
-                s = lb + mo.start()
-                edits.append((s, s + len(name), name + '__rec'))
-                cnt += 1
-            if cnt == 0:
-                raise Drift('%s: @twin but no self call in %s' % (relpath, name))
-            frep['transforms'].append('T1: %d self-call(s) of %s redirected to contract twin %s__rec'
-                                      % (cnt, name, name))
-        for r in fn['replaces']:
-            p = nth_find(src, r['old'], r['occ'], lb, rb)
-            if p < 0:
-                raise Drift('%s: %s: replace text %r not found' % (relpath, name, r['old']))
-            edits.append((p, p + len(r['old']), r['new']))
-            frep['transforms'].append('T3: %r -> %r' % (r['old'], r['new']))
-        byord = {l['ordinal']: l for l in fn['loops']}
-        if sorted(byord) != list(range(1, len(loops) + 1)):
-            raise Drift('%s: %s: loop ordinals must be 1..%d' % (relpath, name, len(loops)))
-        for idx, lp in enumerate(loops, 1):
-            o = byord[idx]
-            if o['kind'] != lp['kind']:
-                raise Drift('%s: %s: loop %d is %s, overlay says %s'
-                            % (relpath, name, idx, lp['kind'], o['kind']))
-            if o['skip'] or not o['lines']:
-                continue
-            text = '\n' + '\n'.join(o['lines']) + '\n'
-            if lp['kind'] in ('for', 'while'):
-                ins(lp['hdr_end'], text)
-            else:
-                body = m[lp['body_start']:lp['body_end']]
-                if re.search(r'\bcontinue\b', body):
-                    raise Drift('%s: %s: do-loop %d contains continue; T2 not applicable'
-                                % (relpath, name, idx))
-                edits.append((lp['kw'], lp['kw'] + 2, 'for (;;)' + text + '{'))
-                edits.append((lp['tail_kw'], lp['tail_kw'] + 5, 'if (!'))
-                edits.append((lp['tail_semi'], lp['tail_semi'] + 1, ') break; }'))
-                frep['transforms'].append('T2: do/while loop %d rewritten as for(;;){BODY if(!(c)) break;}' % idx)
-        for i_ in fn['inserts']:
-            p = nth_find(src, i_['anchor'], i_['occ'], lb, rb)
-            if p < 0:
-                raise Drift('%s: %s: anchor %r (occ %d) not found'
-                            % (relpath, name, i_['anchor'], i_['occ']))
-            if i_['where'] == 'after':
-                e = src.find('\n', p)
-                ins(e + 1, '\n'.join(i_['lines']) + '\n')
-            else:
-                b = src.rfind('\n', 0, p) + 1
-                ins(b, '\n'.join(i_['lines']) + '\n')
+        # Per-function tolerance: a function whose loop structure / anchors drifted keeps only its
+        # function contract (which states the property) and is reported with 'drift'; the driver then
+        # checks it by bounded unwinding (a failure there is a real counterexample) or reports undecided.
+        try:
+            e_, frep = annotate_function(src, m, fn, relpath, False)
+        except Drift as d1:
+            try:
+                e_, frep = annotate_function(src, m, fn, relpath, True)
+                frep['drift'] = str(d1)
+            except Drift as d2:
+                e_, frep = [], dict(function=fn['name'], loops=0, contract_clauses=0, transforms=[],
+                                    drift=str(d2), missing=True)
+        edits += e_
         report.append(frep)
 
     # apply edits
